@@ -149,3 +149,23 @@ def roundtrip_struct(self, obj, context, path, tail, j):
         nm = self.subcons[j].name
         if nm:
             assert v[nm] == r[nm], "each named member of the parsed container equals what its build returned"
+
+
+def lazy_struct(self, eager, data0, context, path, j):
+    """C16 for LazyStruct: whenever the eager Struct over the same members parses the data, the lazy parse succeeds, leaves the
+    stream at the same position, and the access to any named member j (here by index) returns what the eager container holds
+    under that name."""
+    s2 = io.BytesIO(data0)
+    try:
+        ev = eager._parse(s2, context, path)
+    except Exception:
+        return
+    end = s2.tell()
+    s = io.BytesIO(data0)
+    lz = self._parse(s, context, path)
+    assert s.tell() == end, "lazy parsing leaves the stream where eager parsing leaves it"
+    if 0 <= j < len(self.subcons):
+        nm = self.subcons[j].name
+        if nm:
+            v = lz[j]
+            assert v == ev[nm], "an accessed member is the value eager parsing returns"
